@@ -2,7 +2,8 @@ from checks import both, EX
 
 CHECK = {
     'level': 'exploration',
-    'rule': ('closure generator over small scopes (one or two trees, pool of 4-12 elements over 2-7 key values, so many '
+    'rule': ('[hints, big fills, re-entrancy] parent hints are also taken in batches and used after further finds and read-only calls (the oldest hint of the batch); red-black fills of 2^18+5000 (thorough 2^20+5000) descending / ascending / alternating / run-wise keys with the rules walker at every power of two and paths of more than 32 turns; traversal visitors call size/find/height and nested traversals on the same and another tree; comb-shaped deep trees; every second case runs with an allocator that refuses everything; '
+             'closure generator over small scopes (one or two trees, pool of 4-12 elements over 2-7 key values, so many '
              'elements compare equal), separately for cstl_bintree_* and cstl_rbtree_*: insert unhinted, insert hinted with '
              'the parent reported by an immediately preceding find of the same key (key absent: would-be parent; key present: '
              'parent of the match, NULL when the match is the root), erase by probe for every key, clear and swap are applied in '
@@ -20,7 +21,7 @@ CHECK = {
              'the red-black tree) and non-trivial when >= 2 elements are held; the same tree reached in two different closure '
              'scopes counts once per scope.'),
     'assumptions': ['comparison function is a total order on a small integer key (its result magnitude varies between cases)',
-                    'hinted inserts: hint = the par out-parameter of an immediately preceding find of the same key (found or '
+                    'hinted inserts: hint = the par out-parameter of a find of the same key with no mutation in between, other read-only calls allowed (found or '
                     'not), no mutation in between, as documented in bintree.h/rbtree.h',
                     'a library call that consumes 10 s of CPU time (not wall clock) without returning is reported as a hang',
                     'clear is always given a non-NULL callback',
@@ -45,7 +46,7 @@ LEVEL = {
              'the NDEBUG build; find/erase/size results are compared with a reference multiset of element addresses after every '
              'call, traversals in both directions (and with every possible early stop in the small scopes) are checked for '
              'exactly-once, bracketing, order and stop value. Held means: on the executions observed.'),
-    'note': 'trusts gcc 12 sanitizer runtimes and the harness reference model; total-order comparator; hints only from an immediately preceding find of the same key',
+    'note': 'trusts gcc 12 sanitizer runtimes and the harness reference model; total-order comparator; hints from a find of the same key with no mutation of the tree in between (other finds and read-only calls may intervene)',
     'technique': 'runtime monitoring: closure + random workloads, reference-multiset oracle after every call, traversal monitor, link walker, ASan/UBSan',
     'design_ref': 'DESIGN.md section 3 (C01)',
 }
